@@ -4,3 +4,5 @@ pub mod rng;
 pub mod util;
 pub mod drive;
 pub mod irdump;
+pub mod canon;
+pub mod cppgen;
